@@ -137,15 +137,19 @@ def verifier(rep, prog, v):
         main = []
         prefix = []
         for u in ups:
-            ls = list(operand_locals(u.args[1]))
-            root = cm.view_info(v, ls[0])[0] if ls else None
-            if root in (sig, pk, msg):
-                main.append((u, root))
-            else:
-                prefix.append(u)
-        rep.ob("PROV", "%s|hash order R||A||M" % v.path, [r for _, r in main] == [sig, pk, msg] and
-               all(main[i][0].bb in v.dom.get(main[i + 1][0].bb, ()) for i in range(len(main) - 1)),
-               "SHA-512 absorbs parameters %s (expected signature[..32], public_key, message)" % [v.local_name(r) for _, r in main], loc=v.loc())
+            # an update inside `for part in [a, b, c]` absorbs a, b, c in order
+            for x in (cm.absorb_sequence(v, [u]) or []):
+                root = x[0]
+                if root is None or root not in (sig, pk, msg):
+                    r2 = cm.expr_root(x.expr)
+                    root = r2 if r2 in (sig, pk, msg) else root
+                if root in (sig, pk, msg):
+                    main.append((u, root, x[2]))
+                elif u not in prefix:
+                    prefix.append(u)
+        rep.ob("PROV", "%s|hash order R||A||M" % v.path, [m_[1] for m_ in main] == [sig, pk, msg] and
+               all(main[i][0].bb in v.dom.get(main[i + 1][0].bb, ()) or main[i][0] is main[i + 1][0] for i in range(len(main) - 1)),
+               "SHA-512 absorbs parameters %s (expected signature[..32], public_key, message)" % [v.local_name(m_[1]) for m_ in main], loc=v.loc())
         if main:
             u0 = main[0][0]
             e = [x for x in [expr_of_operand(v, u0.args[1])]]
@@ -168,7 +172,7 @@ def verifier(rep, prog, v):
             rep.ob("PROV", "%s|dom2 prefix iff prehashed" % v.path, okp and ctl,
                    "%d prefix update(s); control-dependent on the true edge of `prehashed`: %s" % (len(prefix), ctl), loc=v.loc())
         if wide and ups:
-            rep.ob("PROV", "%s|k depends on the hash" % v.path, any(u.bb in v.dom.get(wide[0].bb, ()) for u, _ in main), "hash updates precede the reduction", loc=wide[0].loc())
+            rep.ob("PROV", "%s|k depends on the hash" % v.path, any(m_[2] in v.dom.get(wide[0].bb, ()) for m_ in main), "hash updates precede the reduction", loc=wide[0].loc())
     # call sites of the verifier: prehashed constant
     ph_side = prog.reach_fns(prog.by_path.get("classic::crypto_sign::crypto_sign_final_verify", []) + cm.find_method(prog, "sign::IncrementalSigner", "verify"))
     plain_side = prog.reach_fns(prog.by_path.get("classic::crypto_sign::crypto_sign_verify_detached", []) + prog.by_path.get("classic::crypto_sign::crypto_sign_open", [])
